@@ -474,6 +474,8 @@ def eval_topology_sample(sample):
         c.update(what="freq", route=route)
         out.append(_result(sc, c, nt))
     for j, th in enumerate(THRESHOLDS):
+        if sample.get("light") and (i + j) % 2:
+            continue  # 4-tree multisets (thorough tier): every second threshold, alternating with the sample index
         routes = CON_ROUTES if sample.get("all_routes") else [CON_ROUTES[(i + j) % 4]]
         for route in routes:
             c = _base(sample)
@@ -576,7 +578,7 @@ def gen_exhaustive(n, kmax, scope, kmin=1):
             for rooted in (True, False):
                 i += 1
                 yield dict(scope=scope, labels=K.LAB[:n], trees=[topos[x] for x in combo], rooted=rooted,
-                           weights=_weights_for(i, k), i=i)
+                           weights=_weights_for(i, k), i=i, light=(k >= 4))
 
 
 def gen_random(rng, count, scope, nmin=5, nmax=7, kmin=2, kmax=5, p_unif=0.0, removed=False, all_routes=False):
@@ -765,7 +767,8 @@ def t2(ctx):
     run("topologies@n4,k<=%d" % kmax,
         "every multiset of 1..%d of the 26 rooted labelled topologies on 4 leaves x {rooted, unrooted} x one of 5 weight "
         "patterns over {None,1,2,1/2} (by index) -> frequencies (2 routes incl. incremental/cache), consensus at 10 thresholds "
-        "(0.2,1/4,1/3,1/2,1/2+ulp,default,0.6,2/3,3/4,1; 4 routes in rotation), MCCT (4 routes); non-trivial = >=2 trees" % kmax,
+        "(0.2,1/4,1/3,1/2,1/2+ulp,default,0.6,2/3,3/4,1; 4 routes in rotation; 4-tree multisets: every second threshold), MCCT (4 routes); "
+        "non-trivial = >=2 trees" % kmax,
         True, eval_topology_sample, gen_exhaustive(4, kmax, "topologies@n4,k<=%d" % kmax))
     run("topologies@n3,k<=3", "every multiset of 1..3 of the 4 rooted labelled topologies on 3 leaves x both rootings, all routes; "
         "non-trivial = none (3 leaves have no non-trivial unrooted split)", True, eval_topology_sample,
